@@ -1,4 +1,5 @@
 import A5.Driver.Proto
+import A5.Driver.FloatOps
 /-! `a5driver`: one request per line on stdin, one response per line on stdout. -/
 open A5 A5.Driver
 
@@ -8,7 +9,10 @@ def handle (line : String) : String :=
   | op :: args =>
     match intOps op args with
     | some r => r
-    | none => "bad-op"
+    | none =>
+      match floatOps op args with
+      | some r => r
+      | none => "bad-op"
 
 partial def loop (hin : IO.FS.Stream) (hout : IO.FS.Stream) : IO Unit := do
   let line ← hin.getLine
